@@ -94,6 +94,12 @@ def steerOfString (s : String) : List String := if s == "-" then [] else s.split
 
 def candIds (c : Ctrl) : List Nat := (candidateEntries c).map (·.1)
 
+/-- which measurement of each source the controller holds: `<id>:<stamp>` for every entry with a snapshot -/
+def heldStr (c : Ctrl) : String :=
+  let l := c.srcs.filterMap (fun p => if p.2.snap.isSome then some (p.1, p.2.stamp) else none)
+  let l := l.mergeSort (fun a b => decide (a.1 ≤ b.1))
+  commaList (l.map fun p => s!"{p.1}:{p.2}")
+
 /-- direct controller op = put the message on an (empty) channel and let the loop take it -/
 def direct (st : St) (id : Nat) (m : WMsg) : St × String :=
   let (w1, _) := step st.cfg st.w (.send id m)
@@ -101,7 +107,7 @@ def direct (st : St) (id : Nat) (m : WMsg) : St × String :=
   let st' := { st with w := w2 }
   match r with
   | some (.ok calls used) =>
-    (st', s!"calls={commaList (calls.map callStr)} used={match used with | none => "none" | some u => idsStr u} leap={charOfLeap w2.ctrl.leap} cand={idsStr (candIds w2.ctrl)}")
+    (st', s!"calls={commaList (calls.map callStr)} used={match used with | none => "none" | some u => idsStr u} leap={charOfLeap w2.ctrl.leap} cand={idsStr (candIds w2.ctrl)} held={heldStr w2.ctrl}")
   | some .panic => (st', "panic")
   | none => (st', "bad-op")
 
@@ -129,7 +135,7 @@ def stepLine (loopMode : Bool) (s : St) (line : String) : St × String :=
       let (w1, _) := step s.cfg s.w (.add id)
       if loopMode then ({ s with w := w1 }, "ok")
       else ({ s with w := w1 },
-        s!"calls=- used=none leap={charOfLeap w1.ctrl.leap} cand={idsStr (candIds w1.ctrl)}")
+        s!"calls=- used=none leap={charOfLeap w1.ctrl.leap} cand={idsStr (candIds w1.ctrl)} held={heldStr w1.ctrl}")
     | none => (s, "bad-op")
   | ["usable", idw, bw] =>
     match kvNat? [idw] "id", kvNat? [bw] "b" with
@@ -143,7 +149,7 @@ def stepLine (loopMode : Bool) (s : St) (line : String) : St × String :=
     match kvNat? rest "id", (kv? rest "vals").bind valsOfString?, kv? rest "steer" with
     | some id, some vals, some steer =>
       match (kv? rest "snap").bind (candOfString? id) with
-      | some snap => direct s id (.source snap vals (steerOfString steer))
+      | some snap => direct s id (.source snap ((kvNat? rest "t").getD 0) vals (steerOfString steer))
       | none => (s, "bad-op")
     | _, _, _ => (s, "bad-op")
   | ["send", idw, what] =>
@@ -153,7 +159,7 @@ def stepLine (loopMode : Bool) (s : St) (line : String) : St × String :=
         if what == "drop" then some .dropped
         else if what == "usable=1" then some (.usability true)
         else if what == "usable=0" then some (.usability false)
-        else (kv? [what] "snap").bind (candOfString? id) |>.map (fun c => .source c [] [])
+        else (kv? [what] "snap").bind (candOfString? id) |>.map (fun c => .source c 100 [] [])
       match m with
       | some m => ({ s with w := (step s.cfg s.w (.send id m)).1 }, "ok")
       | none => (s, "bad-op")
